@@ -465,6 +465,23 @@ pub fn par_shards(rep: &Report, threads: usize, n_shards: usize, f: impl Fn(usiz
                 let r = panic::catch_unwind(AssertUnwindSafe(|| f(i)));
                 if r.is_err() {
                     let p = LAST_PANIC.with(|p| p.borrow_mut().take());
+                    // A panic raised *inside chrono's sources* by a call the harness left unguarded: the
+                    // harness only leaves a call unguarded when the API is documented not to panic for
+                    // what it is given (accessors, `Debug`/`Display` and comparisons of values chrono
+                    // itself returned, constructors on fields the reference calendar validated). So
+                    // chrono handed out an internally invalid value, or a non-panicking API panicked:
+                    // a violation (of the value's validity), not a harness error. Panics located in
+                    // the harness, std or a dependency stay harness errors (inconclusive).
+                    if let Some(pi) = p.as_ref() {
+                        if let Some(pos) = pi.file.find("/repo/src/") {
+                            let site = format!("{}:{}", &pi.file[pos + 6..], pi.line);
+                            rep.violation(
+                                &format!("{}/unguarded-non-panicking-api/panic-inside-chrono@{}", rep.prop, site),
+                                json!({"shard": i, "panic": pi.to_json(), "note": "raised by an accessor, formatter, comparison or validated constructor applied to a value chrono returned; the shard's remaining cases were not evaluated"}),
+                            );
+                            continue;
+                        }
+                    }
                     rep.harness_error(format!(
                         "shard {} panicked outside a monitored call: {:?}",
                         i,
